@@ -414,7 +414,9 @@ def _verify_contract(c: FunctionContract, replay: bool = True) -> ContractReport
                 return ContractReport(c.key, [], 0, outside=f"contract no longer matches the source: {e}")
             missing = [x for x in stepdef.params + stepdef.targets if x not in sym]
             if missing:
-                return ContractReport(c.key, [], 0, outside=f"contract no longer matches the source: the loop body now carries {missing}, which the contract does not describe")
+                # havoc-ing an undeclared variable would be sound but can refute a correct block (its relation to the
+                # declared ones is unknown): the contract answers "outside", the property module falls back to a probe
+                return ContractReport(c.key, [], 0, outside=f"contract no longer matches the source: the block now reads {missing}, which the contract does not describe")
             paths = I.run_function(c.module, c.qualname, {k: sym[k] for k in stepdef.params + stepdef.targets}, st, fndef=stepdef.fndef)
         else:
             paths = I.run_function(c.module, c.qualname, dict(sym), st)
